@@ -321,7 +321,7 @@ impl Engine for HttpEngine {
         60
     }
     fn tolerated_inconclusive_fraction(&self) -> f64 {
-        // a request that gets no answer within 40 s (typical: 20 ms) is never a violation, but the
+        // a request that gets no answer within 90 s (typical: 20 ms) is never a violation, but the
         // run must not be reported as "held"
         0.0
     }
@@ -366,6 +366,10 @@ impl Engine for HttpEngine {
             }
         }
         let batch = 1 + pick(f(&p, 0), self.max_in_flight);
+        if crate::engine_pipeline::WATCHDOG_EXPIRIES.load(std::sync::atomic::Ordering::SeqCst) >= 2 {
+            o.inconclusive = Some("not executed: circuit breaker after 2 request watchdog expiries in this worker".into());
+            return o;
+        }
         let srv = match start_server() {
             Ok(s) => s,
             Err(e) => {
@@ -376,7 +380,7 @@ impl Engine for HttpEngine {
         let port = srv.port;
         let mut fs: Vec<Finding> = Vec::new();
         let mut log: Vec<String> = Vec::new();
-        let timeout = Duration::from_secs(40);
+        let timeout = Duration::from_secs(90);
         let mut concurrent_valid_pairs = false;
         let mut invalid_before_valid = false;
         let mut seen_invalid = false;
@@ -469,6 +473,7 @@ impl Engine for HttpEngine {
             );
         }
         if let Some(t) = fs.iter().find(|f| f.prop == "TIMEOUT") {
+            crate::engine_pipeline::WATCHDOG_EXPIRIES.fetch_add(1, std::sync::atomic::Ordering::SeqCst);
             o.inconclusive = Some(t.msg.clone());
         }
         fs.retain(|f| f.prop != "TIMEOUT");
